@@ -147,7 +147,7 @@ package ast
 //@   ensures bl.currentStack != nil && bl.stacks == old(bl.stacks)
 //@   ensures old(bl.err) != nil ==> bl.err != nil
 // everything on a parse stack is a usable value (never a nil interface or a nil pointer in an interface)
-//@ typeinv Stack: forall(i, 0 <= i && i < len(self.values) ==> self.values[i] != nil && ref(self.values[i]) != 0)
+//@ typeinv Stack: forall(i, 0 <= i && i < len(self.values) ==> self.values[i] != nil && ref(self.values[i]) != 0 && allocated(ref(self.values[i])))
 //@ func (*ToBoltListener).pushStack
 //@   props C10
 //@   requires[usable] val != nil && ref(val) != 0
@@ -433,6 +433,47 @@ package ast
 //@   props C10 C02
 //@   modifies *
 //@   ensures[direction-given-or-ascending] old(bl.err) == nil && bl.err == nil && len(bl.currentStack.values) >= 1 && istype(bl.currentStack.values[len(bl.currentStack.values) - 1], *SortFieldNode) ==> as(bl.currentStack.values[len(bl.currentStack.values) - 1], *SortFieldNode).isAscending == ite(old(len(bl.currentStack.values)) >= 1 && old(istype(bl.currentStack.values[len(bl.currentStack.values) - 1], SortDirection)), old(as(bl.currentStack.values[len(bl.currentStack.values) - 1], SortDirection)), true)
+// a skip or limit clause carries exactly the number written in the query: no clamping, no re-interpretation (0 stays 0)
+//@ func (*ToBoltListener).ExitSkipExpr
+//@   props C02
+//@   modifies *
+//@   ensures[the-skip-clause-replaces-the-number-on-the-stack] old(bl.err) == nil && bl.err == nil && old(len(bl.currentStack.values)) >= 1 && old(istype(bl.currentStack.values[len(bl.currentStack.values) - 1], *Int64ConstNode)) ==> bl.currentStack == old(bl.currentStack) && len(bl.currentStack.values) == old(len(bl.currentStack.values)) && istype(bl.currentStack.values[len(bl.currentStack.values) - 1], *SkipExprNode)
+//@   ensures[the-skip-is-the-number-written] old(bl.err) == nil && bl.err == nil && old(len(bl.currentStack.values)) >= 1 && old(istype(bl.currentStack.values[len(bl.currentStack.values) - 1], *Int64ConstNode)) && istype(bl.currentStack.values[len(bl.currentStack.values) - 1], *SkipExprNode) ==> as(bl.currentStack.values[len(bl.currentStack.values) - 1], *SkipExprNode).Int64ConstNode.value == old(as(bl.currentStack.values[len(bl.currentStack.values) - 1], *Int64ConstNode).value)
+//@ func (*ToBoltListener).ExitLimitExpr
+//@   props C02
+//@   modifies *
+//@   ensures[the-limit-clause-replaces-the-number-on-the-stack] old(bl.err) == nil && bl.err == nil && old(len(bl.currentStack.values)) >= 1 && old(istype(bl.currentStack.values[len(bl.currentStack.values) - 1], *Int64ConstNode)) ==> bl.currentStack == old(bl.currentStack) && len(bl.currentStack.values) == old(len(bl.currentStack.values)) && istype(bl.currentStack.values[len(bl.currentStack.values) - 1], *LimitExprNode)
+//@   ensures[the-limit-is-the-number-written] old(bl.err) == nil && bl.err == nil && old(len(bl.currentStack.values)) >= 1 && old(istype(bl.currentStack.values[len(bl.currentStack.values) - 1], *Int64ConstNode)) && istype(bl.currentStack.values[len(bl.currentStack.values) - 1], *LimitExprNode) ==> as(bl.currentStack.values[len(bl.currentStack.values) - 1], *LimitExprNode).Int64ConstNode.value == old(as(bl.currentStack.values[len(bl.currentStack.values) - 1], *Int64ConstNode).value)
+// a query answers GetSkip / GetLimit with the number its clause carries, and with nothing when it has no such clause
+//@ func (*queryNode).GetSkip
+//@   props C02
+//@   pure
+//@   ensures[absent-iff-no-clause] (result == nil) == (node.Skip == nil)
+//@   ensures[the-number] result != nil ==> *result == node.Skip.Int64ConstNode.value
+//@ func (*queryNode).GetLimit
+//@   props C02
+//@   pure
+//@   ensures[absent-iff-no-clause] (result == nil) == (node.Limit == nil)
+//@   ensures[the-number] result != nil ==> *result == node.Limit.Int64ConstNode.value
+// numbers and clause nodes are written once, when they are made; the typing pass does not touch them
+//@ immutable H.ast.Int64ConstNode.value
+//@ immutable H.ast.untypedQueryNode.limit
+//@ immutable H.ast.untypedQueryNode.skip
+//@ immutable H.ast.untypedQueryNode.sortBy
+// the query statement takes the limit clause on top of the stack and the skip clause below it, when they are there
+//@ func (*ToBoltListener).ExitQueryStmt
+//@   props C10 C02
+//@   assume BoolNodeTrue != nil
+//@   modifies *
+//@   ensures[the-limit-clause-is-the-query's-limit] old(bl.err) == nil && bl.err == nil && len(bl.currentStack.values) >= 1 && istype(bl.currentStack.values[len(bl.currentStack.values) - 1], *untypedQueryNode) ==> ite((old(len(bl.currentStack.values)) >= 1 && old(istype(bl.currentStack.values[len(bl.currentStack.values) - 1], *LimitExprNode))), as(bl.currentStack.values[len(bl.currentStack.values) - 1], *untypedQueryNode).limit == old(as(bl.currentStack.values[len(bl.currentStack.values) - 1], *LimitExprNode)), as(bl.currentStack.values[len(bl.currentStack.values) - 1], *untypedQueryNode).limit == nil)
+//@   ensures[the-skip-clause-is-the-query's-skip] old(bl.err) == nil && bl.err == nil && len(bl.currentStack.values) >= 1 && istype(bl.currentStack.values[len(bl.currentStack.values) - 1], *untypedQueryNode) && !(old(len(bl.currentStack.values)) >= 1 && old(istype(bl.currentStack.values[len(bl.currentStack.values) - 1], *LimitExprNode))) ==> ite(old(len(bl.currentStack.values)) >= 1 && old(istype(bl.currentStack.values[len(bl.currentStack.values) - 1], *SkipExprNode)), as(bl.currentStack.values[len(bl.currentStack.values) - 1], *untypedQueryNode).skip == old(as(bl.currentStack.values[len(bl.currentStack.values) - 1], *SkipExprNode)), as(bl.currentStack.values[len(bl.currentStack.values) - 1], *untypedQueryNode).skip == nil)
+//@   ensures[the-skip-clause-below-a-limit-is-the-query's-skip] old(bl.err) == nil && bl.err == nil && len(bl.currentStack.values) >= 1 && istype(bl.currentStack.values[len(bl.currentStack.values) - 1], *untypedQueryNode) && (old(len(bl.currentStack.values)) >= 1 && old(istype(bl.currentStack.values[len(bl.currentStack.values) - 1], *LimitExprNode))) ==> ite(old(len(bl.currentStack.values)) >= 2 && old(istype(bl.currentStack.values[len(bl.currentStack.values) - 2], *SkipExprNode)), as(bl.currentStack.values[len(bl.currentStack.values) - 1], *untypedQueryNode).skip == old(as(bl.currentStack.values[len(bl.currentStack.values) - 2], *SkipExprNode)), as(bl.currentStack.values[len(bl.currentStack.values) - 1], *untypedQueryNode).skip == nil)
+// typing a query keeps its paging clauses
+//@ func (*untypedQueryNode).TypeTransformBool
+//@   props C10 C02
+//@   requires s != nil && node.predicate != nil
+//@   modifies *
+//@   ensures[paging-clauses-kept] result1 == nil ==> istype(result0, *queryNode) && as(result0, *queryNode).Limit == old(node.limit) && as(result0, *queryNode).Skip == old(node.skip) && as(result0, *queryNode).SortBy == old(node.sortBy)
 //@ func (*ToBoltListener).ExitStringArray
 //@   props C10
 //@   assume forall(i, 0 <= i && i < len(bl.currentStack.values) ==> istype(bl.currentStack.values[i], StringNode))
@@ -466,10 +507,6 @@ package ast
 //@ func (*ToBoltListener).pushSetFunction
 //@   props C10
 //@   assume len(bl.currentStack.values) > 1 && istype(bl.currentStack.values[len(bl.currentStack.values)-2], SetFunction) ==> 0 <= as(bl.currentStack.values[len(bl.currentStack.values)-2], SetFunction) && as(bl.currentStack.values[len(bl.currentStack.values)-2], SetFunction) <= 3
-//@   modifies *
-//@ func (*ToBoltListener).ExitQueryStmt
-//@   props C10
-//@   assume BoolNodeTrue != nil
 //@   modifies *
 //@ func (*ToBoltListener).getQuery
 //@   props C10
